@@ -100,6 +100,148 @@ class Line:
         return acc
 
 
+class width:
+    """context manager: positions of W bits while a relation and its queries are built (the gap model needs 16)"""
+
+    def __init__(self, w):
+        self.w = w
+
+    def __enter__(self):
+        global W
+        self.old = W
+        W = self.w
+
+    def __exit__(self, *a):
+        global W
+        W = self.old
+
+
+class GapLine(Line):
+    """a line of N symbolic bytes with a *run* inserted: G copies (G symbolic, up to 60000) of one symbolic byte r at position g.
+         real line = bytes[0..g) ++ r^G ++ bytes[g..nc)
+    r is restricted to payload characters that are neither digits nor hexadecimal letters, so that numeric scans stop at the run.
+    Lines far longer than N are covered this way (any length threshold on a field, a payload or the whole line is crossed by
+    some G); what is not covered: long lines whose long part is not one repeated character."""
+    G_MAX = 60000
+
+    @property
+    def gmax(self):
+        return min(self.G_MAX, (1 << W) - 256)
+
+    def __init__(self, N, sfx=""):
+        assert N <= 200 and W >= 12
+        self.N = N
+        self.bytes = [z3.BitVec("L%s_%d" % (sfx, i), 8) for i in range(N)]
+        self.nc = z3.BitVec("nc" + sfx, W)
+        self.g = z3.BitVec("g" + sfx, W)
+        self.G = z3.BitVec("G" + sfx, W)
+        self.r = z3.BitVec("r" + sfx, 8)
+        self.n = self.nc + self.G
+        r = self.r
+        run_char = z3.Or(z3.And(z3.UGE(r, 0x3A), z3.ULE(r, 0x40)), z3.And(z3.UGE(r, 0x47), z3.ULE(r, 0x57)), r == 0x60,
+                         z3.And(z3.UGE(r, 0x67), z3.ULE(r, 0x77)))
+        self.wf = z3.And(z3.ULE(self.nc, N), z3.ULE(self.g, self.nc), z3.ULE(self.G, min(self.G_MAX, (1 << W) - 256)), run_char)
+        self._memo = {}
+
+    def _cbyte(self, k):
+        """compressed byte k (k a W-bit term)"""
+        r = z3.BitVecVal(0, 8)
+        for j in range(self.N - 1, -1, -1):
+            r = z3.If(k == j, self.bytes[j], r)
+        return r
+
+    def at(self, i):
+        i = z3.simplify(i)
+        k = ("at", i.get_id())
+        v = self._memo.get(k)
+        if v is None:
+            v = z3.If(z3.ULT(i, self.g), self._cbyte(i), z3.If(z3.ULT(i, self.g + self.G), self.r, self._cbyte(i - self.G)))
+            self._memo[k] = v
+        return v
+
+    def first(self, pred, lo, hi, key=None):
+        lo, hi = z3.simplify(lo), z3.simplify(hi)
+        k = (key, lo.get_id(), hi.get_id()) if key is not None else None
+        if k is not None and k in self._memo:
+            return self._memo[k]
+        g, G = self.g, self.G
+        res = hi
+        # suffix (compressed j >= g sits at real position j + G), then the run, then the prefix: later assignments win, so the
+        # least real position is chosen
+        for j in range(self.N - 1, -1, -1):
+            pj = pos(j)
+            rp = pj + G
+            res = z3.If(z3.And(z3.UGE(pj, g), z3.ULT(pj, self.nc), z3.ULE(lo, rp), z3.ULT(rp, hi), pred(self.bytes[j])), rp, res)
+        cand = z3.If(z3.UGT(lo, g), lo, g)
+        res = z3.If(z3.And(pred(self.r), z3.ULT(cand, g + G), z3.ULT(cand, hi)), cand, res)
+        for j in range(self.N - 1, -1, -1):
+            pj = pos(j)
+            res = z3.If(z3.And(z3.ULT(pj, g), z3.ULE(lo, pj), z3.ULT(pj, hi), pred(self.bytes[j])), pj, res)
+        if k is not None:
+            self._memo[k] = res
+        return res
+
+    def fold(self, lo, hi, init, step, key=None):
+        lo, hi = z3.simplify(lo), z3.simplify(hi)
+        k = (key, lo.get_id(), hi.get_id()) if key is not None else None
+        if k is not None and k in self._memo:
+            return self._memo[k]
+        g, G = self.g, self.G
+        acc = init
+        for j in range(self.N):
+            pj = pos(j)
+            acc = z3.If(z3.And(z3.ULT(pj, g), z3.ULE(lo, pj), z3.ULT(pj, hi)), step(acc, self.bytes[j]), acc)
+        # the run: number of its positions inside [lo, hi)
+        a = z3.If(z3.UGT(lo, g), lo, g)
+        b = z3.If(z3.ULT(hi, g + G), hi, g + G)
+        cnt = z3.If(z3.ULT(a, b), b - a, z3.BitVecVal(0, W))
+        if key == "xor":
+            acc = z3.If(z3.Extract(0, 0, cnt) == 1, acc ^ self.r, acc)
+        else:
+            # a general step function cannot be iterated a symbolic number of times: the value is unknown if the run is inside the
+            # range (numeric folds never are: the run byte is neither a digit nor a hex letter)
+            self._poison = getattr(self, "_poison", 0) + 1
+            unknown = z3.BitVec("fold_over_run!%d" % self._poison, acc.size())
+            acc = z3.If(cnt == 0, acc, unknown)
+        for j in range(self.N):
+            pj = pos(j)
+            rp = pj + G
+            acc = z3.If(z3.And(z3.UGE(pj, g), z3.ULT(pj, self.nc), z3.ULE(lo, rp), z3.ULT(rp, hi)), step(acc, self.bytes[j]), acc)
+        if k is not None:
+            self._memo[k] = acc
+        return acc
+
+    def expand(self, model_eval):
+        """the real line of a model"""
+        nc = model_eval(self.nc).as_long()
+        g = min(model_eval(self.g).as_long(), nc)
+        G = model_eval(self.G).as_long()
+        r = model_eval(self.r).as_long()
+        bs = [model_eval(self.bytes[i]).as_long() for i in range(min(nc, self.N))]
+        return bytes(bs[:g]) + bytes([r]) * G + bytes(bs[g:])
+
+    def concrete_subst(self, line):
+        """substitution that makes this symbolic line equal to a concrete one: its longest run of an allowed run character is
+        mapped to the gap (None if the rest does not fit into N bytes)"""
+        allowed = set(range(0x3A, 0x41)) | set(range(0x47, 0x58)) | {0x60} | set(range(0x67, 0x78))
+        best = (0, 0)
+        i = 0
+        while i < len(line):
+            j = i
+            while j < len(line) and line[j] == line[i]:
+                j += 1
+            if line[i] in allowed and j - i > best[1]:
+                best = (i, j - i)
+            i = j
+        g, G = best
+        rest = line[:g] + line[g + G:]
+        if len(rest) > self.N or G > self.G_MAX:
+            return None
+        rb = line[g] if G > 0 else 0x3A
+        return [(self.bytes[i], z3.BitVecVal(rest[i] if i < len(rest) else 0, 8)) for i in range(self.N)] + \
+               [(self.nc, pos(len(rest))), (self.g, pos(g)), (self.G, pos(G)), (self.r, z3.BitVecVal(rb, 8))]
+
+
 def is_digit(b):
     return z3.And(z3.UGE(b, 48), z3.ULE(b, 57))
 
